@@ -131,7 +131,7 @@ def run(chk, program, tier):
                 chk.unknown('WF-LAYOUT', f"decode_yacht_devices_string@n={n}", str(u), DEC, 0); return
             _reader(chk, 'yacht_devices', n, r, rev)
     # ---------------- Actisense (whole payloads)
-    for L in (1, 3, 8, 9, 30, 223):
+    for L in (range(1, 224) if tier == 'thorough' else (1, 3, 8, 9, 30, 223)):
         payload = W.frame_bytes(L, 'payload')
         try:
             res, rec = W.encode_with(program, 'encode_actisense', [payload], payload=payload)
